@@ -114,6 +114,48 @@ def prog_class(p):
     return "%s/%s%s/fill=%s" % (p["topo"], p["lay"], "".join(str(f) for f in files), "".join(p["fill"]))
 
 
+def index_shift(p, c):
+    """layer B's result for this case renumbers the includes of a file other than the root (an include is dropped
+    in front of one that stays) while the root file loses nothing, and no method filter is set: re-resolution has to
+    reach below an untouched root"""
+    G, b = p["G"], c["b"]
+    if c["ar"]["pats"] or not b.get("ok"):
+        return False
+    inc = {tuple(e) for e in b["inc"]}
+    kept = set(b["kept"])
+    if any(d["k"] != "dead" and d["f"] == 1 and (i + 1) not in kept for i, d in enumerate(G["defs"])):
+        return False
+    if any((1, g) not in inc for g in G["inc"][0]):
+        return False
+    def trefs(t):
+        if t["n"] == "r":
+            return {t["d"]}
+        out = set()
+        for k in ("k", "v"):
+            if k in t and isinstance(t[k], dict):
+                out |= trefs(t[k])
+        return out
+    for f in range(2, len(G["inc"]) + 1):
+        lst = G["inc"][f - 1]
+        flags = [(f, g) in inc for g in lst]
+        shifted = {lst[j] for i in range(len(lst)) if not flags[i] for j in range(i + 1, len(lst)) if flags[j]}
+        if not shifted:
+            continue
+        # something kept in f refers into an include whose index moved
+        for i, d in enumerate(G["defs"]):
+            if d["k"] == "dead" or d["f"] != f or (i + 1) not in kept:
+                continue
+            refs = set(d["cv"]) | ({d["ext"]} if d["ext"] else set())
+            for t in d["ty"]:
+                refs |= trefs(t)
+            for fn in d["fns"]:
+                for t in fn["a"] + fn["r"] + fn["t"]:
+                    refs |= trefs(t)
+            if any(G["defs"][r - 1]["f"] in shifted for r in refs):
+                return True
+    return False
+
+
 def vacuity(progs):
     need = {
         "a struct-like reachable only through a typedef of an included file": False,
@@ -124,6 +166,7 @@ def vacuity(progs):
         "a container element use": False,
         "a diamond include": False,
         "a function whose name extends the name of another one": False,
+        "a file below an untouched root whose includes are renumbered": False,
         "B => A counterexample or none (flag present)": False,
         "a run that clears an `extends`": False,
         "a run that drops an include": False,
@@ -156,6 +199,8 @@ def vacuity(progs):
         for c in p["cases"]:
             need["B => A counterexample or none (flag present)"] = True
             b = c["b"]
+            if index_shift(p, c):
+                need["a file below an untouched root whose includes are renumbered"] = True
             if any(G["defs"][s - 1]["ext"] and s not in b["ext"] for s in b["kept"] if G["defs"][s - 1]["k"] == "service"):
                 need["a run that clears an `extends`"] = True
             if len(b["inc"]) < ninc:
@@ -489,12 +534,15 @@ def lab_phase(ctx, progs, rows, rejected, nprog):
     import genlab
     import schema as schemalib
     rnd = random.Random(ctx.seed + 7)
-    cand, candf = [], []
+    cand, candf, shifty = [], [], []
     for pi, p in enumerate(progs):
         if not gen_ok_for_lab(p):
             continue
         for ci, c in enumerate(p["cases"]):
             ar = c["ar"]
+            if not ar.get("yaml") and not ar["pats"] and ar["preserve"] == "unset" and not ar["plist"] \
+                    and not ar["nocomment"] and index_shift(p, c):
+                shifty.append((pi, ci))      # observed through trim_idl whatever the in-process verdict was
             if (pi, ci, "inproc") in rejected or ar.get("yaml"):
                 continue
             if not ar["pats"] and ar["preserve"] == "unset" and not ar["plist"] and not ar["nocomment"]:
@@ -507,7 +555,16 @@ def lab_phase(ctx, progs, rows, rejected, nprog):
     keys = sorted(strata)
     rnd.shuffle(keys)
     nplain = nprog - nprog // 3
-    pick = [strata[k][0] for k in keys[:nplain]]
+    # always in the lab: programs whose trimming renumbers the includes of a file below an untouched root (the
+    # generator follows Reference.Index of the trimmed in-memory AST), one with a type and one with a value reference
+    forced = []
+    for want_dv in (False, True):
+        fc = [(pi, ci) for pi, ci in shifty if any(sl.get("dv") for sl in progs[pi]["slots"]) == want_dv]
+        if fc:
+            forced.append(rnd.choice(sorted(fc)))
+    if not forced:
+        raise vlib.MachineryError("no include-renumbering program for the trim_idl lab")
+    pick = forced + [strata[k][0] for k in keys[:max(0, nplain - len(forced))] if strata[k][0] not in forced]
     strata = {}
     for pi, ci in candf:
         ar = progs[pi]["cases"][ci]["ar"]
